@@ -15,7 +15,8 @@ Definition sa_list_rc (l : list item) (op : lop) : res retv * list item :=
 Definition sa_list_events (l : list item) (op : lop) : list ev :=
   let '(_, _, g) := sa_list_run1 l op in g.
 
-(* ---- the defect repaired by 1d9f897: now equal to the builtin, with exact events ---- *)
+(* ---- repaired defects: now equal to the builtin, with exact events ---- *)
+(* 1d9f897: slice assignment through slice.indices() *)
 Lemma fixed_negative_start :
   sa_list_run1 [0;1;2] (LSetSlice (sl (Some (-5)) (Some 2) None) (VList [7]))
   = (Ok RNone, [7;2], [ERem 0; ERem 1; EAdd 7]) /\
@@ -34,6 +35,41 @@ Lemma fixed_stop_unclamped :
   py_list_op [0;1;2] (LSetSlice (sl (Some 1) (Some 10) (Some 2)) (VList [7])) = (Ok RNone, [0;7;2]).
 Proof. split; vm_compute; reflexivity. Qed.
 
+(* 2c3a941: the assigned value is materialised first *)
+(* c[::-1] = c : a reversal, no longer reads the list while overwriting it *)
+Lemma fixed_extslice_self :
+  sa_list_run1 [0;1] (LSetSlice (sl None None (Some (-1))) VSelf)
+  = (Ok RNone, [1;0], [ERem 1; EAdd 0; ERem 0; EAdd 1]) /\
+  py_list_op [0;1] (LSetSlice (sl None None (Some (-1))) VSelf) = (Ok RNone, [1;0]).
+Proof. split; vm_compute; reflexivity. Qed.
+
+(* c[0:2] = 5 : TypeError before anything is deleted, no event *)
+Lemma fixed_setslice_noniterable :
+  sa_list_run1 [0;1;2] (LSetSlice (sl (Some 0) (Some 2) None) VNonIter)
+  = (Raise TypeError, [0;1;2], []) /\
+  py_list_op [0;1;2] (LSetSlice (sl (Some 0) (Some 2) None) VNonIter) = (Raise TypeError, [0;1;2]).
+Proof. split; vm_compute; reflexivity. Qed.
+
+(* c[0:3:2] = iter([7, 8]) : accepted *)
+Lemma fixed_extslice_iterator :
+  sa_list_run1 [0;1;2] (LSetSlice (sl (Some 0) (Some 3) (Some 2)) (VIter [7;8]))
+  = (Ok RNone, [7;1;8], [ERem 0; EAdd 7; ERem 2; EAdd 8]) /\
+  py_list_op [0;1;2] (LSetSlice (sl (Some 0) (Some 3) (Some 2)) (VIter [7;8])) = (Ok RNone, [7;1;8]).
+Proof. split; vm_compute; reflexivity. Qed.
+
+(* b1144f3: remove(7) on [0,1,2]: ValueError and NO remove event *)
+Lemma fixed_remove_absent :
+  sa_list_run1 [0;1;2] (LRemove 7) = (Raise ValueError, [0;1;2], []) /\
+  sa_list_run1 [0;1;2] (LRemove 1) = (Ok RNone, [0;2], [ERem 1]).
+Proof. split; vm_compute; reflexivity. Qed.
+
+(* c982b6e: d |= {0: 7, 5: 8} fires the events of update() *)
+Lemma fixed_dict_ior :
+  sa_dict_run1 [(0, 0); (1, 1)] (DIor [(0, 7); (5, 8)])
+  = (Ok RSelf, [(0, 7); (1, 1); (5, 8)], [ERem 0; EAdd 7; EAdd 8]) /\
+  py_dict_op [(0, 0); (1, 1)] (DIor [(0, 7); (5, 8)]) = (Ok RSelf, [(0, 7); (1, 1); (5, 8)]).
+Proof. split; vm_compute; reflexivity. Qed.
+
 (* ---- list: contents / result differ from the builtin ---- *)
 (* c[1:2] = c : ignored *)
 Lemma refuted_setslice_self : exists l op,
@@ -43,42 +79,9 @@ Proof.
   exists [0;1;2], (LSetSlice (sl (Some 1) (Some 2) None) VSelf). repeat split; vm_compute; reflexivity.
 Qed.
 
-(* c[::-1] = c : reads the list while overwriting it *)
-Lemma refuted_extslice_self : exists l op,
-  list_eq_guard l op = false /\ sa_list_rc l op = (Ok RNone, [0;0]) /\
-  py_list_op l op = (Ok RNone, [1;0]).
-Proof.
-  exists [0;1], (LSetSlice (sl None None (Some (-1))) VSelf). repeat split; vm_compute; reflexivity.
-Qed.
-
-(* c[0:2] = 5 : the slice is deleted (with remove events) before TypeError *)
-Lemma refuted_setslice_noniterable : exists l op,
-  list_eq_guard l op = false /\ sa_list_run1 l op = (Raise TypeError, [2], [ERem 0; ERem 1]) /\
-  py_list_op l op = (Raise TypeError, [0;1;2]).
-Proof.
-  exists [0;1;2], (LSetSlice (sl (Some 0) (Some 2) None) VNonIter). repeat split; vm_compute; reflexivity.
-Qed.
-
-(* c[0:3:2] = iter([7, 8]) : TypeError instead of assignment *)
-Lemma refuted_extslice_iterator : exists l op,
-  list_eq_guard l op = false /\ sa_list_run1 l op = (Raise TypeError, [0;1;2], []) /\
-  py_list_op l op = (Ok RNone, [7;1;8]).
-Proof.
-  exists [0;1;2], (LSetSlice (sl (Some 0) (Some 3) (Some 2)) (VIter [7;8])). repeat split; vm_compute; reflexivity.
-Qed.
-
 (* ---- list: events do not account for the contents ---- *)
 Definition unaccounted (before after : list item) (g : list ev) : Prop :=
   exists x, countZ x after - countZ x before <> net x g.
-
-(* remove(7) on [0,1,2]: ValueError, nothing removed, but a remove event was fired *)
-Lemma refuted_remove_absent : exists l op,
-  list_acct_guard l op = false /\
-  sa_list_run1 l op = (Raise ValueError, l, [ERem 7]) /\ unaccounted l l [ERem 7].
-Proof.
-  exists [0;1;2], (LRemove 7). repeat split; try (vm_compute; reflexivity).
-  exists 7. vm_compute. discriminate.
-Qed.
 
 (* c *= 2 : contents doubled, no event *)
 Lemma refuted_imul : exists l op,
@@ -97,17 +100,6 @@ Lemma refuted_set_isub_self : exists s op,
   py_set_op (fun l => l) s op = (Ok RSelf, []).
 Proof. exists [0], (SIsub ASelf). repeat split; vm_compute; reflexivity. Qed.
 
-(* ---- dict ---- *)
-(* d |= {0: 7, 5: 8} : contents updated, no event *)
-Lemma refuted_dict_ior : exists d op,
-  dict_acct_guard d op = false /\
-  sa_dict_run1 d op = (Ok RSelf, [(0, 7); (1, 1); (5, 8)], []) /\
-  unaccounted (d_values d) [7; 1; 8] [].
-Proof.
-  exists [(0, 0); (1, 1)], (DIor [(0, 7); (5, 8)]). repeat split; try (vm_compute; reflexivity).
-  exists 7. vm_compute. discriminate.
-Qed.
-
 (* ---- the list accounting guard excludes exactly the defective region ---- *)
 Lemma countZ_concat_repeat : forall x (l : list item) k,
   countZ x (concat (repeat l k)) = Z.of_nat k * countZ x l.
@@ -120,17 +112,30 @@ Theorem list_acct_guard_exact : forall l op g, list_acct_guard l op = false ->
   exists x, countZ x l' - countZ x l <> net x g' - net x g.
 Proof.
   intros l op g H. destruct op; try discriminate; cbn [list_acct_guard] in H.
-  - (* remove(absent) *)
-    cbn [sa_list_op]. unfold sa_remove, bind, fire, b_upd, lift, py_remove. cbn [fst snd].
-    rewrite (remove_first_absent _ _ H). exists x. rewrite net_app. cbn [net ev_delta].
-    rewrite Z.eqb_refl. lia.
-  - (* *= n, n <> 1, non-empty *)
-    cbn [sa_list_op]. unfold bind, b_upd, lift, ret. cbn [fst snd].
-    apply orb_false_elim in H. destruct H as [H1 H2].
-    destruct l as [|h t]; [discriminate|]. exists h.
-    assert (C : 1 <= countZ h (h :: t)).
-    { rewrite countZ_cons, Z.eqb_refl. pose proof (countZ_nonneg h t). lia. }
-    unfold py_imul. destruct (n <=? 0) eqn:E.
-    + rewrite countZ_nil. lia.
-    + rewrite countZ_concat_repeat. nia.
+  (* *= n, n <> 1, non-empty *)
+  cbn [sa_list_op]. unfold bind, b_upd, lift, ret. cbn [fst snd].
+  apply orb_false_elim in H. destruct H as [H1 H2].
+  destruct l as [|h t]; [discriminate|]. exists h.
+  assert (C : 1 <= countZ h (h :: t)).
+  { rewrite countZ_cons, Z.eqb_refl. pose proof (countZ_nonneg h t). lia. }
+  unfold py_imul. destruct (n <=? 0) eqn:E.
+  - rewrite countZ_nil. lia.
+  - rewrite countZ_concat_repeat. nia.
+Qed.
+
+(* ---- the list equality guard excludes exactly the defective region: wherever it is false the
+   contents differ from the builtin's ---- *)
+Theorem list_eq_guard_exact : forall l op g, list_eq_guard l op = false ->
+  fst (snd (sa_list_op op (l, g))) <> snd (py_list_op l op).
+Proof.
+  intros l op g H. destruct op as [| | | |s0 v| | | | | | | | |]; try discriminate. destruct v; try discriminate.
+  cbn [list_eq_guard] in H. cbn [sa_list_op py_list_op]. unfold bind. rewrite sa_setslice_unfold.
+  destruct (adjust s0 (zlen l)) as [[[start stop] step]|e] eqn:Ha; [|discriminate].
+  destruct (step =? 1) eqn:E1; [|discriminate]. assert (step = 1) by lia. subst step.
+  destruct (adjust_bounds _ _ _ _ _ (zlen_nonneg l) Ha) as [_ [Hpos _]].
+  destruct (Hpos ltac:(lia)) as [Bs Bp].
+  unfold sa_setslice_body. cbn [Z.eqb Pos.eqb ret fst snd materialise].
+  unfold py_setslice. rewrite Ha. cbn [Z.eqb Pos.eqb fst snd].
+  intro Heq. apply (f_equal (@length Z)) in Heq.
+  rewrite !app_length, firstn_length, skipn_length in Heq. unfold zlen in *. lia.
 Qed.
